@@ -235,6 +235,28 @@ fn requests(max_len: usize, table: &RefTable) -> Vec<String> {
             }
         }
     }
+    // long routes: a multi-byte character at every byte offset up to 130 (any fixed-index string
+    // handling trips on one of them), and lengths around powers of two; bare (unmatched unless a
+    // wildcard covers "/") and behind every registered wildcard prefix
+    let mut prefixes: Vec<String> = vec![String::new()];
+    for (p, _, _) in table {
+        if let Some(prefix) = p.strip_suffix("*rest") {
+            if !prefixes.iter().any(|x| x == prefix) {
+                prefixes.push(prefix.to_string());
+            }
+        }
+    }
+    for prefix in &prefixes {
+        for pos in 0..=130usize {
+            for tail in [0usize, 80] {
+                out.push(format!("{prefix}/{}é{}", "x".repeat(pos), "y".repeat(tail)));
+            }
+        }
+        for len in [63usize, 64, 65, 127, 128, 129, 255, 256, 257, 1023, 1024, 1025, 4096, 65_536] {
+            out.push(format!("{prefix}/{}", "z".repeat(len)));
+            out.push(format!("{prefix}/{}", "é".repeat(len / 2)));
+        }
+    }
     out
 }
 
@@ -324,7 +346,7 @@ impl Check for C16 {
         CheckMeta {
             property: "C16",
             level: "model_checking",
-            rule: "every table-building program over {route(p in 7 patterns), route_layer(fresh tag), merge(one of 5 sub-tables incl. nested merges and layers), add_rpc_service(3 names)} up to depth 3 (quick) / 4 (thorough) = states, x every request string over {/ a b * : . space é NUL} up to length 4 plus prefix/suffix mutations of every registered pattern = evaluations, on the real Router against a reference matcher; tables that the router rejects at build time (documented conflict panic) are counted and skipped; distinct = distinct (table size, layered routes, any match)".into(),
+            rule: "every table-building program over {route(p in 7 patterns), route_layer(fresh tag), merge(one of 5 sub-tables incl. nested merges and layers), add_rpc_service(3 names)} up to depth 3 (quick) / 4 (thorough) = states, x every request string over {/ a b * : . space é NUL} (plus long routes: a two-byte character at every byte offset 0..130, lengths around 2^6..2^16, bare and behind every wildcard prefix) up to length 4 plus prefix/suffix mutations of every registered pattern = evaluations, on the real Router against a reference matcher; tables that the router rejects at build time (documented conflict panic) are counted and skipped; distinct = distinct (table size, layered routes, any match)".into(),
             assumptions: vec!["overlapping patterns cannot coexist in one table (the router rejects them at build time), so the reference match is unique".into()],
             exhaustive: true,
         }
